@@ -1,5 +1,10 @@
 """Human-written claim text per property (MANIFEST level_claimed / level_note)."""
 TEXT = {
+ "C03": dict(
+   ref="DESIGN.md 5/C03",
+   technique="Lean 4 theorems (offset injectivity, NCvario run decomposition = row-major cells for every rank, NCgenio odometer = strided cells, refinement of write/read sequences to an n-d array) + differential placement check + shadow-array oracle on the real SD API",
+   text="Theorems in H4/Props/C03.lean, all for unbounded rank/shape/op sequences: varOffset_inj/lt; vario_runs (the requests NCvario issues enumerate the slab cells exactly once in row-major order); genio_visits_strided_cells; slab_refines_array (any sequence of valid writes and reads on the flat image through the run decomposition equals assignments/selections on a reference array); write_read_same_slab; write_frame (no cell outside the region changes). Tie B: the model's predicted element offsets (`slabOffsets`) are compared with where the real library stored distinct counters for random unit-stride and strided SDwritedata calls; implementation oracle: shadow n-d array over ranks 1-5, all number types/flavours, fill/no-fill, user/default fill values, unlimited dimension with growth, SDsetblocksize, valid and out-of-range requests, SDend/SDstart cycles.",
+   note="Modelled, not verified: the C loops of NCvario/NCgenio (tied by placement); fill and record-growth logic of hdf_xdr_NCvdata/NCcoordck are covered by the implementation oracle only. Known findings (NOFILL mode) are listed in known_findings.json."),
  "C05": dict(
    ref="DESIGN.md 5/C05",
    technique="Lean 4 theorem (RLE round trip, all byte strings) + generated constants + differential check of encoder bytes against the library",
